@@ -26,6 +26,14 @@ CHECKS = {
          "Clock thread replaced by direct send_clck_ind() calls (liveness observed on the fake Thread object); one shared "
          "carrier; untuned-but-running children not judged for routing.",
          "DESIGN.md 2/C12", "world+explore"),
+ "C18": ("model_checking",
+         "explicit-state BFS over FAKE_DROP/RFMUTE/burst histories on the real Application, set-valued reference model",
+         "All states of the (drop budget, period, mute flags) machine reachable with the command alphabet (legal and illegal "
+         "FAKE_DROP forms, RFMUTE on either side) are visited for the four header-version pairs; in every state every "
+         "command and a burst at each probe frame number is executed on the real code and the datagram on the recipient's "
+         "DATA port (burst / NOPE.ind / nothing) is compared with the reference; frontier exhausted.",
+         "Clock handler called directly with the burst's frame number; budget use by muted bursts left open (both accepted).",
+         "DESIGN.md 2/C18", "world+explore"),
 }
 
 PENDING = {}
